@@ -495,6 +495,12 @@ func (c *Compiler) applyUsesToNode(mod, nod, use parse.Node, parentStatus schema
 		// is written in). Search the grouping space of the local node,
 		// not just the module globals. Also check for status conflicts
 		group, ok = nod.LookupGrouping(gname.Local)
+		if !ok {
+			// A uses that an augment moved into a node cloned from
+			// another module's grouping: its groupings are those in
+			// scope where the uses itself is written.
+			group, ok = use.LookupGrouping(gname.Local)
+		}
 	} else {
 		group, ok = gmod.LookupGrouping(gname.Local)
 	}
